@@ -693,6 +693,23 @@ class CalSim:
                 r["fatal"] = True
             self.log.add("restore", r["exc"])
             return r
+        if kind == "fresh_continue":
+            # the process dies; a brand-new interpreter restores from the folder, runs n batches and exits;
+            # then this process restores what that one left behind
+            import subprocess
+            import sys as _sys
+            self.abandon()
+            m = self.cfg["model"]
+            script = str(Path(__file__).resolve().parent / "fresh_restore.py")
+            env = dict(os.environ)
+            env["PYTHONHASHSEED"] = str(derive_seed("fresh", len(self.op_results)) % 4294967295)
+            p = subprocess.run([_sys.executable, script, self.folder, m["kind"], str(m["D"]), str(m.get("extreme", 0.0)), str(op[1])],
+                               capture_output=True, text=True, timeout=300, env=env)
+            self.stats["restore-in-fresh-interpreter"] += 1
+            if "FRESH-OK" not in p.stdout:
+                return {"op": op, "exc": ("FreshInterpreterFailed", (p.stderr or p.stdout)[-300:]), "ret": None, "snap": None, "fatal": True}
+            self.log.add("fresh-continue", op[1], p.stdout.strip().splitlines()[-1])
+            return self.do_op(["restore"])
         if kind == "checkpoint":
             r = {"op": op, "exc": None, "ret": None, "snap": self.snapshot()}
             try:
